@@ -108,39 +108,94 @@ MSpace == { UNION S : S \in SUBSET (IF Tier = "thorough" THEN G1 ELSE G1q) } \cu
 MSeq == TLCEval(SetToSeq(MSpace))
 NM == TLCEval(Len(MSeq))
 
+(* --------------------------------------------- everything the spec computes per object *)
+InfOn(x)     == Infer(x, "On", 0)
+InfO1(x, r)  == Infer(x, "O1", r)
+Bit(b, w) == IF b THEN w ELSE 0
+FullMask == (2 ^ Lcm) - 1
+RECURSIVE MaskOf(_, _, _)
+\* bit r set iff the generated check of hs[r + 1] accepts x under draw residue r
+MaskOf(hs, x, r) == IF r >= Lcm THEN 0 ELSE Bit(ChkX(hs[r + 1], x, <<>>, r), 2 ^ r) + MaskOf(hs, x, r + 1)
+
+\* SatX / ChkX are conservative extensions of Semantics' Sat / Chk
+RECURSIVE IsBase(_)
+IsBase(x) == x.k # "back" /\ x.cls \notin XCls /\ \A i \in DOMAIN SubObjs(x) : IsBase(SubObjs(x)[i])
+BaseSample == TLCEval(
+              { y \in AllAtoms \cup TypeObjs : IsBase(y) }
+              \cup { Cont(c, s) : c \in {"list", "tuple", "set", "USeq", "UColl", "dict_keys", "dict_values", "deque"},
+                                  s \in {<<>>, <<i1>>, <<sa, i1>>} }
+              \cup { Map(c, s) : c \in {"dict", "OrderedDict", "UMap", "Counter"}, s \in {<<>>, <<KV(sa, i1)>>, <<KV(i1, sa)>>} }
+              \cup { Cont("dict_items", <<Cont("tuple", <<sa, i1>>)>>), Iter("gen", <<>>), Iter("UIter", <<i1>>),
+                     Cont("list", <<Cont("list", <<sa>>), Cont("list", <<i1>>)>>) })
+Conservative(x, hs) ==
+  IsBase(x) =>
+     \A h \in hs :
+        (h.k # "exc" /\ ~HasMarker(h)) =>
+           \A y \in BaseSample \cup {x} :
+              /\ SatX(h, y, <<>>) = Sat(h, y)
+              /\ \A r \in Draws : ChkX(h, y, <<>>, r) = Chk(h, y, r, Conf0)
+
+(* --------------------------------------- root causes of the faithful design *)
+RECURSIVE HasClsIn(_, _, _), HasCounterNonInt(_)
+HasClsIn(x, cs, nonempty) == (x.k # "back" /\ x.cls \in cs /\ (~nonempty \/ Len(x.items) > 0))
+                             \/ \E i \in DOMAIN SubObjs(x) : HasClsIn(SubObjs(x)[i], cs, nonempty)
+HasCounterNonInt(x) == (x.k = "map" /\ x.cls = "Counter" /\ \E i \in DOMAIN x.items : x.items[i].val.cls \notin {"int", "bool"})
+                       \/ \E i \in DOMAIN SubObjs(x) : HasCounterNonInt(SubObjs(x)[i])
+CauseSet(x) ==
+     (IF HasClsIn(x, {"dict_items", "odict_items", "USetNe"}, FALSE) THEN {"set_node"} ELSE {})
+\cup (IF HasClsIn(x, {"odict_keys", "odict_values"}, TRUE) THEN {"unsubscriptable"} ELSE {})
+\cup (IF HasClsIn(x, {"E"}, FALSE) THEN {"meta_dunder"} ELSE {})
+\cup (IF HasBack(x) THEN {"marker"} ELSE {})
+\cup (IF HasClsIn(x, {"DSeq", "DMap"}, FALSE) THEN {"duck"} ELSE {})
+\cup (IF HasCounterNonInt(x) THEN {"counter_val"} ELSE {})
+
+Facts(j) ==
+  LET x   == OSeq[j]
+      on  == InfOn(x)
+      o1  == [r \in 1..Lcm |-> InfO1(x, r - 1)]
+      hs  == {on} \cup { o1[r] : r \in 1..Lcm }
+  IN [j |-> j, x |-> x, on |-> on, o1 |-> o1,
+      rtOn  |-> MaskOf([r \in 1..Lcm |-> on], x, 0),      \* On hint checked under every residue
+      rtO1  |-> MaskOf(o1, x, 0),                         \* O1 hint of residue r checked under the same residue
+      satOn |-> SatX(on, x, <<>>),
+      exc   |-> \E h \in hs : h.k = "exc",
+      term  |-> \A h \in hs : ~HasNode(h, "diverge") /\ HDepth(h) <= ODepth(x),
+      back  |-> HasBack(x),
+      markOn |-> HasMarker(on),
+      markO1 |-> \E r \in 1..Lcm : HasMarker(o1[r]),
+      hom   |-> on.k = "exc" \/ HasNode(on, "union") \/ \A r \in 1..Lcm : o1[r] = on,
+      cons  |-> Conservative(x, hs),
+      causes |-> CauseSet(x), depth |-> ODepth(x)]
+
 (* ----------------------------------------------------------- state machine *)
 CH == 40
-VARIABLES ph, oid, node, mset, steps
-vars == <<ph, oid, node, mset, steps>>
-Init == ph = (IF Mode = "fsm" THEN 8 ELSE 0) /\ oid = 0 /\ node = "start" /\ mset = {} /\ steps = 0
+VARIABLES ph, oid, node, mset, steps, fx
+vars == <<ph, oid, node, mset, steps, fx>>
+Init == ph = (IF Mode = "fsm" THEN 8 ELSE 0) /\ oid = 0 /\ node = "start" /\ mset = {} /\ steps = 0 /\ fx = <<>>
+PickChunk == /\ ph = 0 /\ ph' = 1
+             /\ oid' \in { 1 + k * CH : k \in 0 .. ((NObj - 1) \div CH) }
+             /\ UNCHANGED <<node, mset, steps, fx>>
+\* the object and everything the spec says about it, computed once (by the worker that generates the state)
+PickObj   == /\ ph = 1 /\ ph' = 2
+             /\ \E j \in { i \in oid .. (oid + CH - 1) : i <= NObj } : oid' = j /\ fx' = Facts(j)
+             /\ UNCHANGED <<node, mset, steps>>
 \* Mode = "fsm": pick a method set (through chunk states, as for objects)
 PickMChunk == /\ ph = 8 /\ ph' = 9
               /\ oid' \in { 1 + k * CH : k \in 0 .. ((NM - 1) \div CH) }
-              /\ UNCHANGED <<node, mset, steps>>
+              /\ UNCHANGED <<node, mset, steps, fx>>
 PickM      == /\ ph = 9 /\ ph' = 10
               /\ \E j \in { i \in oid .. (oid + CH - 1) : i <= NM } : oid' = j /\ mset' = MSeq[j]
-              /\ UNCHANGED <<node, steps>>
-PickChunk == /\ ph = 0 /\ ph' = 1
-             /\ oid' \in { 1 + k * CH : k \in 0 .. ((NObj - 1) \div CH) }
-             /\ UNCHANGED <<node, mset, steps>>
-PickObj   == /\ ph = 1 /\ ph' = 2
-             /\ oid' \in { j \in oid .. (oid + CH - 1) : j <= NObj }
-             /\ UNCHANGED <<node, mset, steps>>
+              /\ UNCHANGED <<node, steps, fx>>
 \* one iteration of the while loop of _infer_hint_factory_collections_abc
 FsmStep   == /\ ph = 10 /\ ~FsmHalts(node, mset)
              /\ node' \in FsmCand(node, mset)
              /\ steps' = steps + 1
-             /\ UNCHANGED <<ph, oid, mset>>
+             /\ UNCHANGED <<ph, oid, mset, fx>>
 Next == PickChunk \/ PickObj \/ PickMChunk \/ PickM \/ FsmStep
 Spec == Init /\ [][Next]_vars
 Active == ph = 2
-X == OSeq[oid]
-
-\* error traces show the object and its inferred hints (cfg: ALIAS ShowState)
-ShowState == [ph |-> ph, oid |-> oid, node |-> node, mset |-> mset, steps |-> steps,
-              x  |-> IF ph = 2 THEN X ELSE none,
-              on |-> IF ph = 2 THEN Infer(X, "On", 0) ELSE HAny,
-              o1 |-> IF ph = 2 THEN [r \in 0 .. (Lcm - 1) |-> Infer(X, "O1", r)] ELSE <<>>]
+\* error traces show only what matters (cfg: ALIAS ShowState)
+ShowState == [ph |-> ph, oid |-> oid, node |-> node, mset |-> mset, steps |-> steps, fx |-> fx]
 
 (* -------------------------------------------------------- automaton invariants *)
 Fsm_Deterministic == ph = 10 => Cardinality(FsmCand(node, mset)) <= 1 /\ Cardinality(FsmExact(node, mset)) <= 1
@@ -156,58 +211,24 @@ Fsm_ForkNodes     == (ph = 10 /\ Cardinality(FsmSubset(node, mset)) > 1) => node
 Fsm_NoNestedLabels == ph = 10 => \A i, j \in DOMAIN Edges(node) : i # j => ~(Edges(node)[i].req \subseteq Edges(node)[j].req)
 
 (* ----------------------------------------------------------- object invariants *)
-InfOn(x)     == Infer(x, "On", 0)
-InfO1(x, r)  == Infer(x, "O1", r)
-RoundTripOn(x) == LET h == InfOn(x) IN \A r \in Draws : ChkX(h, x, <<>>, r)
-RoundTripO1(x) == \A r \in Draws : ChkX(InfO1(x, r), x, <<>>, r)      \* same draw for inference and check
-NoExc(x)     == InfOn(x).k # "exc" /\ \A r \in Draws : InfO1(x, r).k # "exc"
-
-Inv_RoundTripOn == Active => RoundTripOn(X)
+\* THE PROPERTY at design level: the inferred hint accepts its object, whatever the draw, and at full depth
+Inv_RoundTripOn   == Active => fx.rtOn = FullMask
+Inv_SatOn         == Active => fx.satOn
+Inv_NoException   == Active => ~fx.exc
+\* inference terminates; the hint is no deeper than the object
+Inv_Terminates    == Active => fx.term
+\* the recursion placeholder is produced exactly for self-referential containers
+Inv_MarkerIffBack == Active => /\ (fx.markOn <=> (fx.back /\ fx.on.k # "exc"))
+                               /\ (fx.markO1 => fx.back)
 \* O1 inference describes ONE sampled item per level (documented trade-off): it is only required to agree with
 \* the full inference where the object is homogeneous at every level (no union in the On hint)
-Inv_O1Homogeneous == (Active /\ ~HasNode(InfOn(X), "union")) => \A r \in Draws : InfO1(X, r) = InfOn(X)
-Inv_SatOn       == Active => SatX(InfOn(X), X, <<>>)
-Inv_NoException == Active => NoExc(X)
-Inv_Terminates  == Active => LET hs == {InfOn(X)} \cup { InfO1(X, r) : r \in Draws } IN
-                             \A h \in hs : ~HasNode(h, "diverge") /\ HDepth(h) <= ODepth(X)
-Inv_MarkerIffBack == Active => /\ (HasMarker(InfOn(X)) <=> (HasBack(X) /\ InfOn(X).k # "exc"))
-                               /\ \A r \in Draws : HasMarker(InfO1(X, r)) => HasBack(X)
+Inv_O1Homogeneous == Active => fx.hom
+Lemma_Conservative == Active => fx.cons
 
-\* SatX / ChkX are conservative extensions of Semantics' Sat / Chk
-RECURSIVE IsBase(_)
-IsBase(x) == x.k # "back" /\ x.cls \notin XCls /\ \A i \in DOMAIN SubObjs(x) : IsBase(SubObjs(x)[i])
-BaseSample == { y \in AllAtoms \cup TypeObjs : IsBase(y) }
-              \cup { Cont(c, s) : c \in {"list", "tuple", "set", "USeq", "UColl", "dict_keys", "dict_values", "deque"},
-                                  s \in {<<>>, <<i1>>, <<sa, i1>>} }
-              \cup { Map(c, s) : c \in {"dict", "OrderedDict", "UMap", "Counter"}, s \in {<<>>, <<KV(sa, i1)>>, <<KV(i1, sa)>>} }
-              \cup { Cont("dict_items", <<Cont("tuple", <<sa, i1>>)>>), Iter("gen", <<>>), Iter("UIter", <<i1>>),
-                     Cont("list", <<Cont("list", <<sa>>), Cont("list", <<i1>>)>>) }
-Lemma_Conservative ==
-  (Active /\ IsBase(X)) =>
-     \A h \in {InfOn(X)} \cup { InfO1(X, r) : r \in Draws } :
-        (h.k # "exc" /\ ~HasMarker(h)) =>
-           \A y \in BaseSample \cup {X} :
-              /\ SatX(h, y, <<>>) = Sat(h, y)
-              /\ \A r \in Draws : ChkX(h, y, <<>>, r) = Chk(h, y, r, Conf0)
-
-(* --------------------------------------- root causes of the faithful design *)
-RECURSIVE HasClsIn(_, _, _)
-HasClsIn(x, cs, nonempty) == (x.k # "back" /\ x.cls \in cs /\ (~nonempty \/ Len(x.items) > 0))
-                             \/ \E i \in DOMAIN SubObjs(x) : HasClsIn(SubObjs(x)[i], cs, nonempty)
-RECURSIVE HasCounterNonInt(_)
-HasCounterNonInt(x) == (x.k = "map" /\ x.cls = "Counter" /\ \E i \in DOMAIN x.items : x.items[i].val.cls \notin {"int", "bool"})
-                       \/ \E i \in DOMAIN SubObjs(x) : HasCounterNonInt(SubObjs(x)[i])
-CauseSet(x) ==
-     (IF HasClsIn(x, {"dict_items", "odict_items", "USetNe"}, FALSE) THEN {"set_node"} ELSE {})
-\cup (IF HasClsIn(x, {"odict_keys", "odict_values"}, TRUE) THEN {"unsubscriptable"} ELSE {})
-\cup (IF HasClsIn(x, {"E"}, FALSE) THEN {"meta_dunder"} ELSE {})
-\cup (IF HasBack(x) THEN {"marker"} ELSE {})
-\cup (IF HasClsIn(x, {"DSeq", "DMap"}, FALSE) THEN {"duck"} ELSE {})
-\cup (IF HasCounterNonInt(x) THEN {"counter_val"} ELSE {})
-\* faithful design: every predicted failure falls into one of the five classes ...
-F_Clean == (Active /\ CauseSet(X) = {}) => RoundTripOn(X) /\ NoExc(X) /\ SatX(InfOn(X), X, <<>>)
+\* faithful design: every predicted failure falls into one of the root-cause classes ...
+F_Clean == (Active /\ fx.causes = {}) => fx.rtOn = FullMask /\ ~fx.exc /\ fx.satOn
 \* ... and each class is exhibited (expected VIOLATED in the faithful design: non-vacuity)
-NV(c) == (Active /\ CauseSet(X) = {c}) => RoundTripOn(X) /\ NoExc(X)
+NV(c) == (Active /\ fx.causes = {c}) => fx.rtOn = FullMask /\ ~fx.exc
 NV_set_node        == NV("set_node")
 NV_unsubscriptable == NV("unsubscriptable")
 NV_meta_dunder     == NV("meta_dunder")
@@ -215,27 +236,11 @@ NV_marker          == NV("marker")
 NV_duck            == NV("duck")
 NV_counter_val     == NV("counter_val")
 \* the draw-dependence of F10: some self-referential container is accepted under one residue, rejected under another
-NV_draw_dependent  == (Active /\ HasBack(X)) =>
-                         LET h == InfOn(X) IN (\A r \in Draws : ChkX(h, X, <<>>, r)) \/ (\A r \in Draws : ~ChkX(h, X, <<>>, r))
+NV_draw_dependent  == (Active /\ fx.back) => fx.rtOn \in {0, FullMask}
 
-T_X == Active => X.k # "zzz"
-T_X5 == Active => \A i \in 1..50 : X.k # "zzz"
-T_Inst == Active => \A i \in 1..50 : InstX(X, "Sequence") \/ TRUE
-T_Fsm == Active => \A i \in 1..50 : FsmRun(MethodsOf("UMSeq")) = "MutableSequence"
 (* -------------------------------------------------------------- rows (R2) *)
-Bit(b, w) == IF b THEN w ELSE 0
-RECURSIVE MaskOn(_, _, _), MaskO1(_, _)
-MaskOn(h, x, r) == IF r >= Lcm THEN 0 ELSE Bit(ChkX(h, x, <<>>, r), 2 ^ r) + MaskOn(h, x, r + 1)
-MaskO1(x, r)    == IF r >= Lcm THEN 0 ELSE Bit(ChkX(InfO1(x, r), x, <<>>, r), 2 ^ r) + MaskO1(x, r + 1)
-Row(j) == LET x == OSeq[j]  on == InfOn(x) IN
-   [j |-> j, x |-> x, on |-> on, o1 |-> [r \in 1..Lcm |-> InfO1(x, r - 1)],
-    rtOn |-> MaskOn(on, x, 0), rtO1 |-> MaskO1(x, 0), satOn |-> SatX(on, x, <<>>),
-    back |-> HasBack(x), causes |-> CauseSet(x), depth |-> ODepth(x)]
-EmitRows == (ph = 1 /\ Emit) =>
-              LET n == IF oid + CH - 1 <= NObj THEN CH ELSE NObj - oid + 1 IN
-              JsonSerialize(IOEnv.ROW_DIR \o "/chunk_" \o ToString(oid) \o ".json",
-                            [t |-> "chunk", first |-> oid, rows |-> [i \in 1..n |-> Row(oid + i - 1)]])
-AllCls == AtomCls \cup SeqCls \cup CollCls \cup MapCls \cup IterCls \cup ViewCls \cup XCls
+EmitRows == (Active /\ Emit) => JsonSerialize(IOEnv.ROW_DIR \o "/row_" \o ToString(oid) \o ".json", fx)
+AllCls == AllClsX
 EmitMeta == (ph = 0 /\ Emit) =>
               JsonSerialize(IOEnv.ROW_DIR \o "/meta.json",
                  [t |-> "meta", lcm |-> Lcm, nobj |-> NObj, design |-> Design,
